@@ -223,7 +223,11 @@ fn masked(who: Responder, a: &[u8], tcp: bool) -> Result<Vec<u8>, String> {
             v.extend_from_slice(&m.tid);
             for (t, val) in &m.attrs {
                 v.extend_from_slice(&t.to_be_bytes());
-                if *t != 1 {
+                // the attributes that by specification carry a transport address (RFC 3489 / 5389 /
+                // 5766 / 5780): MAPPED-, RESPONSE-, SOURCE-, CHANGED-ADDRESS, REFLECTED-FROM,
+                // XOR-PEER-, XOR-RELAYED-, XOR-MAPPED-ADDRESS (both code points), ALTERNATE-SERVER,
+                // RESPONSE-ORIGIN, OTHER-ADDRESS
+                if ![0x0001u16, 0x0002, 0x0004, 0x0005, 0x000b, 0x0012, 0x0016, 0x0020, 0x8020, 0x8023, 0x802b, 0x802c].contains(t) {
                     v.extend_from_slice(val);
                 }
             }
